@@ -128,6 +128,10 @@ EvAll(e, L) ==
                                  ELSE [t |-> "repvar", f |-> e.f, len |-> rep[e.n].len, pos |-> rep[e.n].pos],
                            ev |-> <<>>] }
     [] e.x = "bad"   -> { [r |-> Exc("ExpressionError"), ev |-> <<>>] }
+    [] e.x = "err"   -> { [r |-> IF L["error"] = Undef THEN Exc("NameError")
+                                 ELSE [t |-> "errfield", f |-> e.f, c |-> L["error"].c, site |-> L["error"].site],
+                           ev |-> <<>>] }
+    [] e.x = "dflt"  -> { [r |-> VDefault, ev |-> <<>>] }
 
 EvPipe(es, i, L) ==
   UNION { IF IsExc(a.r) /\ a.r.c \in PipeCaught /\ i < Len(es)
@@ -211,7 +215,7 @@ NextStage(it, st) == FirstFrom(it, IdxOf(st) + 1)
 FirstStage(it) == FirstFrom(it, 1)
 
 Frame(i, st) == [i |-> i, st |-> st, j |-> 1, c |-> i + 1, it |-> 0, its |-> <<>>, oe |-> FALSE,
-                 l0 |-> LookupAll, g0 |-> glob, n0 |-> Len(out)]
+                 l0 |-> LookupAll, g0 |-> glob, n0 |-> Len(out), rec |-> FALSE]
 F  == ctl[Len(ctl)]
 It == items[F.i]
 SetF(f) == [ctl EXCEPT ![Len(ctl)] = f]
@@ -227,7 +231,7 @@ Running == res = "run" /\ exc = NoExc /\ Len(ctl) > 0
 Init ==
   /\ pid \in { [id |-> n, p |-> Progs[n]] : n \in 1..Len(Progs) }
   /\ ctl = << [i |-> 0, st |-> "kids", j |-> 1, c |-> 1, it |-> 0, its |-> <<>>, oe |-> FALSE,
-                l0 |-> pid.p.init, g0 |-> [n \in Names |-> Undef], n0 |-> 0] >>
+                l0 |-> pid.p.init, g0 |-> [n \in Names |-> Undef], n0 |-> 0, rec |-> FALSE] >>
   /\ envs = << pid.p.init >>
   /\ glob = [n \in Names |-> Undef]
   /\ rep = [n \in Names |-> NoRep]
@@ -527,7 +531,7 @@ Unwind ==
                               [t |-> "errinfo", c |-> exc.c, site |-> exc.site])
           /\ log' = Append(log, [ev |-> "handler", c |-> exc.c, act |-> Act])
           /\ out' = SubSeq(out, 1, cells[CFb(F.i)].n)
-          /\ ctl' = SetF([F EXCEPT !.st = "fb", !.j = 1, !.oe = FALSE])
+          /\ ctl' = SetF([F EXCEPT !.st = "fb", !.j = 1, !.oe = FALSE, !.rec = TRUE])
           /\ exc' = NoExc
           /\ UNCHANGED res
      ELSE IF Len(ctl) = 1
@@ -538,13 +542,20 @@ Unwind ==
           /\ UNCHANGED <<log, out, exc, res>>
   /\ UNCHANGED <<pid, glob, rep, cells, tok>>
 
+\* the fallback start tag carries the static attributes that no dynamic
+\* statement targets (program.py builds it from the constant Attribute nodes)
+RECURSIVE StaticOnly(_, _, _)
+StaticOnly(i, P, n) ==
+  IF n > Len(P) THEN <<>>
+  ELSE (IF P[n].dy = 0 THEN << [a |-> "sattr", i |-> i, n |-> P[n].st] >> ELSE <<>>) \o StaticOnly(i, P, n + 1)
+
 SFb ==      \* fallback: start tag with static attributes, value, end tag
   /\ Running /\ F.st = "fb"
   /\ LET tags == It.tag = "el" /\ It.omit.m = "no"
          site == Site(F.i, "oe", 0)
          pre == IF tags
                 THEN << [a |-> "stag", i |-> F.i] >>
-                     \o [n \in 1..Len(It.sattr) |-> [a |-> "sattr", i |-> F.i, n |-> n]]
+                     \o StaticOnly(F.i, Prepared(It), 1)
                      \o << [a |-> "stagend", i |-> F.i] >>
                 ELSE <<>>
          post == IF tags THEN << [a |-> "etag", i |-> F.i] >> ELSE <<>>
@@ -598,7 +609,7 @@ AtMostOncePerReach ==
 \* value they had when it was entered (or are undefined again), unless a
 \* global of that name was defined inside.
 LeaveRestores ==
-  (Running /\ F.st = "done") =>
+  (Running /\ F.st = "done" /\ ~(F.rec /\ "NoRestoreOnUnwind" \in Dev)) =>
      \A n \in LocalNames(F) : glob[n] = F.g0[n] => Lookup(n) = F.l0[n]
 
 \* C05: a global definition stays visible unless a live local binding shadows
